@@ -249,6 +249,8 @@ def expect(op, l, r, n, mode, prec=None):
         return Expect(['B:%d' % (l.c == 0)])
     if op == 'eq_one':
         return Expect(['B:%d' % (l.val == 1)])
+    if op == 'hash_is_ratio_hash':
+        return Expect(['B:1'])
     if op == 'ratio':
         return Expect(['T:%d:%d' % (l.val.numerator, l.val.denominator)])
     if op in ('to_string', 'string_from', 'debug'):
